@@ -17,10 +17,10 @@ def udecl(n, typed=None, val=0):
 
 
 def programs(tier):
-    A = ("decl", "Signal", "a", ("lit", "signal-A", I(0)))
-    Bd = ("decl", "Signal", "b", ("lit", "signal-B", I(0)))
-    Cd = ("decl", "Signal", "c", ("lit", "signal-C", I(0)))
-    Z = ("decl", "Signal", "z0", ("lit", "signal-0", I(0)))
+    A = ("decl", "Signal", "a", ("lit", "signal-A", I(11)))
+    Bd = ("decl", "Signal", "b", ("lit", "signal-B", I(12)))
+    Cd = ("decl", "Signal", "c", ("lit", "signal-C", I(13)))
+    Z = ("decl", "Signal", "z0", ("lit", "signal-0", I(14)))
     small = {
         "arith-1": ([A], ["u1"], [("decl", "Signal", "r", B("+", B("*", V("u1"), I(2)), V("a")))], ["r"]),
         "arith-2": ([A, Bd], ["u1", "u2"], [("decl", "Signal", "r", B("+", B("*", V("u1"), V("a")), B("*", V("u2"), V("b"))))], ["r"]),
@@ -37,8 +37,19 @@ def programs(tier):
         "implicit-results": ([A, Bd], ["u1"], [("decl", "Signal", "t1", B("+", V("u1"), I(1))), ("decl", "Signal", "t2", B(">", I(3), I(2))),
                                                ("decl", "Signal", "r", B("+", B("*", V("t1"), V("a")), B("*", V("t2"), V("b"))))], ["r"]),
     }
+    # a bundle whose members include an untyped value AND a result derived from it (the derived result inherits the
+    # value's compiler-chosen signal: the compiler has to refuse the bundle or give the members different signals)
+    small["bundle-derived"] = ([A], ["u1"], [("decl", "Signal", "w1", B("*", V("u1"), I(3))),
+                                             ("decl", "Bundle", "bb", ("bundle", [V("a"), V("u1"), V("w1")])),
+                                             ("decl", "Bundle", "r", B("*", V("bb"), I(2)))], ["r"])
+    small["bundle-derived-cmp"] = ([A], ["u1"], [("decl", "Signal", "w1", ("cond", B(">", V("u1"), I(0)), V("u1"))),
+                                                 ("decl", "Bundle", "bb", ("bundle", [V("w1"), V("a"), V("u1")])),
+                                                 ("decl", "Bundle", "r", B("+", V("bb"), I(2)))], ["r"])
+    small["bundle-two-calls"] = ([A], ["u1", "u2"], [("func", "f", [("Signal", "s")], [], B("+", V("s"), I(1))),
+                                               ("decl", "Bundle", "bb", ("bundle", [V("a"), ("call", "f", [V("u1")]), ("call", "f", [V("u2")])])),
+                                               ("decl", "Bundle", "r", B("*", V("bb"), I(2)))], ["r"])
     # untyped variables whose NAMES are signal names the program also uses explicitly
-    coal = ("decl", "Signal", "kc", ("lit", "coal", I(0)))
+    coal = ("decl", "Signal", "kc", ("lit", "coal", I(15)))
     small["named-like-item"] = ([coal], ["coal"], [("decl", "Bundle", "bb", ("bundle", [V("coal"), V("kc")])),
                                                     ("decl", "Bundle", "r", B("*", V("bb"), I(3)))], ["r"])
     small["named-like-item-arith"] = ([coal], ["stone", "wood"], [("decl", "Signal", "r", B("+", B("*", V("stone"), V("kc")), V("wood")))], ["r"])
@@ -69,7 +80,8 @@ class C13(core.Check):
     rule = ("programs mixing k untyped values (k in 1,2,3,27,40; thorough 80,120) with explicit uses of the first pool "
             "signals (signal-A/B/C, signal-0) in arithmetic, comparisons, bundles, any(), entity conditions; (i) direct: "
             "the signal the blueprint shows for every untyped value is no wildcard, not signal-W, not a name the program "
-            "uses explicitly and differs from the other untyped values it meets in one bundle/expression; (ii) "
+            "uses explicitly and differs from the other untyped values it meets in one bundle/expression, and the each-result "
+            "of a bundle literal with n non-zero members (incl. a value and a result derived from it, two calls of one function) carries n signals; (ii) "
             "differential: the twin in which every untyped value has a fresh unused explicit type gives the same outputs "
             "(values; for bundles the multiset of member values) and entity conditions for every input valuation; "
             "non-trivial = outputs vary")
@@ -123,6 +135,19 @@ class C13(core.Check):
         dup = sorted({n for n in names if names.count(n) > 1})
         if dup:
             problems.append(("untyped", f"same signal chosen twice: {dup}"))
+        # every member of a bundle literal travels on its own signal: with all members non-zero, the each-result `r`
+        # of the bundle shows exactly as many signals as the literal has members
+        lits = [st for st in body if st[0] == "decl" and st[1] == "Bundle" and st[3][0] == "bundle"]
+        if lits and "r" in case["outputs"] and any(st[0] == "decl" and st[1] == "Bundle" and st[2] == "r" for st in body):
+            circ0 = Circuit(bp)
+            st0, k0 = circ0.settle(circ0.initial_state(), 60)
+            view = observe.output_view(circ0, "r")
+            got = observe.by_name(observe.read_output(circ0, st0, view) or {}) if view[0] in ("anchor", "const") else None
+            n_members = len(lits[0][3][1])
+            if got is None or k0 is None:
+                problems.append(("r", f"bundle result not observable ({view[0]}, settled={k0 is not None})"))
+            elif len(got) != n_members:
+                problems.append(("r", f"bundle literal has {n_members} non-zero members but its each-result carries {len(got)} signals: {dict(list(got.items())[:6])}"))
         # explicit names appear verbatim
         for s in pre:
             es = observe.find_labelled(bp, s[2], "input")
@@ -135,11 +160,19 @@ class C13(core.Check):
             a = {"stmts": A, "inputs": inputs, "opts": {"optimize": True}}
             b = {"stmts": Bt, "inputs": inputs, "opts": {"optimize": True}}
             bundle_out = any(s[0] == "decl" and s[1] == "Bundle" and s[2] in case["outputs"] for s in body)
-            d = explore.run_differential(a, b, dom, [(o, o) for o in case["outputs"]],
-                                         mode="signals" if bundle_out else "value")
+            try:
+                d = explore.run_differential(a, b, dom, [(o, o) for o in case["outputs"]],
+                                             mode="signals" if bundle_out else "value")
+            except harness.Rejected as ex:
+                # the explicitly typed twin is refused (a derived result inherits the explicit type and meets its
+                # source in one bundle): no twin to compare with; the direct checks above decide
+                d = {"status": "twin-rejected: " + str(ex)[:80]}
             if bundle_out and d.get("status") == "fail":
                 # bundle members are renamed by construction: compare the multisets of values instead
-                d = _bundle_values_differential(a, b, dom, case["outputs"])
+                try:
+                    d = _bundle_values_differential(a, b, dom, case["outputs"])
+                except harness.Rejected as ex:
+                    d = {"status": "twin-rejected: " + str(ex)[:80]}
             res["evaluations"] += d.get("evaluations", 0)
             res["compiles"] += 4
             if d["status"] == "fail":
